@@ -896,3 +896,12 @@ Definition local_answers_agree (X : ext) (dmeta : list string -> N * N) (t : opt
 
 Fixpoint lookup_dmeta (k : list string) (l : list (list string * (N * N))) : N * N :=
   match l with [] => (0, 0)%N | (a, b) :: r => if list_eqb a k then b else lookup_dmeta k r end.
+
+(** "what is written through Create is stored byte for byte": the content found at
+    the target after a successful Create (read back from the disk for the local
+    backend) is the concatenation of the chunks written. *)
+Definition stored_ok (o : op) (stored : option string) : bool :=
+  match o, stored with
+  | OpCreate _ chunks, Some b => String.eqb b (String.concat "" chunks)
+  | _, _ => true
+  end.
